@@ -70,9 +70,12 @@ ResultClasses(fn) ==
   IF fn \in {"ecdsa.VerifyASN1", "ecdsa.Verify", "ed25519.Verify", "ed25519.Verify/key"}
     THEN {"true", "false"} ELSE {"ok", "error"}
 
+\* For large inputs (their bytes are not in the trace) the bound is proportional with a small factor: 16 bytes
+\* allocated per input byte on top of the base allowance.
 CallObl(e) == <<
   <<"quiet", Quiet(e)>>,
-  <<"alloc", e.alloc_kib <= AllocBaseKiB + AllocPerByte * Len(e.in)>>,
+  <<"alloc", IF e.big THEN e.alloc_kib <= AllocBaseKiB + (16 * e.in_len) \div 1024
+                      ELSE e.alloc_kib <= AllocBaseKiB + AllocPerByte * Len(e.in)>>,
   <<"result-class", Quiet(e) => e.res \in ResultClasses(e.fn)>>,
   <<"honest-served", e.honest => e.res = "ok">> >>
 
